@@ -183,9 +183,90 @@ def kf_inline_cycle(m, case, obs, pred):
         return False
 
 
+# ---- struct-mapped scopes: family c14xinline (harness/cmd/harness/c14_xinline.go, coq/Interp/RunXSchema.v) ----
+
+def _xparts(obs):
+    o = _P.sx_parse(_P.strip_err_paths(obs)) if obs.startswith("(") else None
+    if not isinstance(o, list) or len(o) != 3 or o[0] != "r":
+        return None, None
+    return o[1][1:], o[2][1:]
+
+
+def _fmtx(x):
+    if isinstance(x, tuple):
+        return '"%s"' % x[1]
+    if isinstance(x, list):
+        return "(" + " ".join(_fmtx(y) for y in x) + ")"
+    return str(x)
+
+
+def xinline_direct(case, obs):
+    """with references == with the references replaced by their objects, operation by operation (error paths aside)"""
+    if obs in ("crash", "hang"):
+        return "the SDK %s on a struct-mapped scope" % ("crashed" if obs == "crash" else "hung")
+    ops, inl = _xparts(obs)
+    if ops is None:
+        return ("constructing a struct-mapped scope (or its inlined partner) panicked: %s" % case[:600]) if "build-panic" in obs else None
+    pl = _P.case_payload(case)
+    calls = pl[5][1:]
+    names = {"u": "Unserialize", "rt": "the round trip Unserialize / Validate / Serialize", "v": "Validate", "s": "Serialize",
+             "sr": "Serialize, then Unserialize of the result,"}
+    for k, (a, b) in enumerate(zip(ops, inl)):
+        if a != b:
+            c = calls[k] if k < len(calls) else ["?", "?"]
+            return ("replacing the references of a STRUCT-MAPPED scope by the objects they denote changed behaviour: %s of %s gives %s "
+                    "with the references and %s with the objects inlined; scope %s"
+                    % (names.get(c[0], c[0]), _fmtx(c[1])[:300], _fmtx(a)[:400], _fmtx(b)[:400], _fmtx(pl[3])[:900]))
+    if len(ops) != len(inl):
+        return "the inlined partner answered %d operations, the scope %d" % (len(inl), len(ops))
+    return None
+
+
+def xinline_agree(case, obs, pred):
+    if obs in ("crash", "hang"):
+        return "diverged" in pred
+    return _P.strip_err_paths(obs) == _P.strip_err_paths(pred)
+
+
+def xinline_stats(rows):
+    distinct, nontrivial = set(), 0
+    structs, kinds, opk = {}, {"by reference": 0, "declared object default on a member": 0, "three levels": 0}, {}
+    filled = 0
+    samples = []
+    for case, obs, pred in rows:
+        h = hashlib.sha1(re.sub(r"^\(case \S+ ", "", case).encode()).digest()
+        if h in distinct:
+            continue
+        distinct.add(h)
+        m = re.search(r'\(xobject "Root" \S+ .*?\(si "(\w+)"', case)
+        if m:
+            structs[m.group(1)] = structs.get(m.group(1), 0) + 1
+        for k in re.findall(r"\((u|rt|v|s|sr) (?:\(|nil)", case):
+            opk[k] = opk.get(k, 0) + 1
+        kinds["by reference"] += 1 if '(ref "XI"' in case or '(ref "A"' in case else 0
+        kinds["declared object default on a member"] += 1 if re.search(r'\) "\{[^"]*\}" \(\) [01] [01] ', case.replace('\\"', "'")) else 0
+        kinds["three levels"] += 1 if '(object "MO"' in case and ('(object "MI"' in case or '"o" (prop (xobject' in case) else 0
+        # non-trivial: the scope holds a member by reference and an Unserialize that omitted it succeeded
+        if ('(ref "XI"' in case or '(ref "A"' in case) and "(rt (ok " in obs:
+            nontrivial += 1
+        if len(samples) < 2 and len(distinct) % 41 == 1:
+            samples.append({"case": case[:1500], "observed": obs[:600]})
+    return {"cases": len(rows), "distinct": len(distinct), "distinct_nontrivial": nontrivial, "root_struct_types": structs,
+            "ops": opk, "schema_classes": kinds, "samples": samples,
+            "rule": "distinct by case text; non-trivial = a member held by reference and an accepted Unserialize"}
+
+
+def xinline_explain(case, obs, pred):
+    return None
+
+
 def register(props):
     global _P
     _P = props
+    props.FAMILY_STATS["c14xinline"] = xinline_stats
+    props.DIRECT[("C14", "c14xinline")] = xinline_direct
+    props.EXPLAIN[("C14", "c14xinline")] = xinline_explain
+    props.AGREE[("C14", "c14xinline")] = xinline_agree
     props.FAMILY_STATS["c14scopes"] = scopes_stats
     props.DIRECT[("C14", "c14scopes")] = scopes_direct
     props.EXPLAIN[("C14", "c14scopes")] = scopes_explain
@@ -193,8 +274,16 @@ def register(props):
     props.KNOWN_PREDICATES["c14_inline_cycle"] = kf_inline_cycle
     props.PROPS["C14"] = {
         "theory": "Properties/C14.v",
-        "families": ["c14scopes"],
-        "rule": "c14scopes: fixed scope trees (an inner scope re-declaring the ids of the outer one; references under list, map, "
+        "families": ["c14scopes", "c14xinline"],
+        "rule": "c14xinline: STRUCT-MAPPED scopes from the shared struct-mapped generator (harness xstruct_gen.go: a struct-mapped "
+                "root over the struct family of xstruct_types.go; its sub-objects held by reference to the scope objects XI "
+                "(struct-mapped, member defaults) and A (map-based, a default, possibly a member of its own by reference), by value, "
+                "behind pointers, two and three levels deep with a plain object in the middle; member properties with defaults, "
+                "declared full / partial / empty object defaults on the member properties, rule lists of several names) against the "
+                "same scope with every self reference mechanically replaced by its object, on inputs that omit every member, supply "
+                "each member (and each member's member) as the empty map, generated and mutated raw inputs (round trip) and native "
+                "struct values (Validate; Serialize then Unserialize); predicted by the struct-mapped model (Schema/XOps.v "
+                "xsub_defaults: the propagation goes through Ref.GetObject() and through the object alike). c14scopes: fixed scope trees (an inner scope re-declaring the ids of the outer one; references under list, map, "
                 "one-of and property; two external namespaces with colliding ids applied in both orders and partially; one-of "
                 "members living in external namespaces; a self-referential and a mutually referential scope with inputs nested "
                 "1..150 levels) plus generated scope trees whose object ids come from one shared pool (so nested scopes collide), "
@@ -236,7 +325,8 @@ def register(props):
                       "case (a case violating one would be reported as a disagreement). C14_order_irrelevant is total: if one "
                       "order returns, every permutation returns, with the same table. Partial: two scopes sharing one Go object "
                       "by pointer are outside the model (scope nests are trees).",
-        "level_note": "Model = Schema/Link.v (link table keyed by the STRUCTURED path — a list of steps — of each reference "
+        "level_note": "Struct-mapped scopes: Schema/XSyntax.v + Schema/XOps.v (family c14xinline; direct predicate: ref form == inlined "
+                      "form, operation by operation). Model = Schema/Link.v (link table keyed by the STRUCTURED path — a list of steps — of each reference "
                       "occurrence, so that distinct occurrences provably have distinct paths; lpath_text gives the text the "
                       "harness prints; ApplyNamespace, NewScopeSchema construction order, ValidateReferences), hand-written from "
                       "scope.go / ref.go and the ApplyNamespace methods of list, map, object, property, one-of after the fix for "
